@@ -148,15 +148,15 @@ PROPS = {
    rule="case = as C01, with 80% of POST/PUT bodies being multipart/form-data: 0..9 parts (quoted/unquoted names, optional filename, optional Content-Type => file vs field), contents 0..300 KB of random bytes / CR-LF-dash runs with planted look-alikes of the delimiter (every proper prefix of CRLF--boundary, delimiter minus last byte at the end, CRLF-- in the middle), "
         "boundaries of 1..70 chars incl. leading '-', sent over http/scgi/fastcgi to sync and async mounts with client segmentation, FastCGI STDIN record sizes, input_buffer_size 1..64K and transport read splitting deciding every parser chunk; file_in_memory_limit 0..128K (spill to temp files); content/multipart limits 1 KB..2 MB. "
         "Oracle: fields and files observed by the application (name, file name, media type, byte-exact content by length+hash+head+tail, order) equal those encoded; bodies over a limit get 413 and never reach the handler; malformed multipart bodies (C02 operators: no final boundary, bad part header, not form-data, truncation, length lies) never reach the handler; "
-        "a third of the bodies sent to asynchronous mounts go through an application that installs a raw_content_filter or a multipart_filter: the raw filter must see every body byte exactly once (length+hash) with one on_end_of_content, the multipart filter one on_new_file/on_data_ready per part, sizes never shrinking, and on_error at most once and never together with completion; the upload directory is empty after the run. non-trivial = run with a body or >= 2 segments; distinct = trace hash",
-   fault_keys=["short_reads", "short_writes", "eagain", "eintr", "spurious_wakeups"],
-   probe_keys=["requests_with_body", "over_limit_413", "content_filter_requests", "filters_installed", "filter_on_error_calls", "multi_segment_requests", "keepalive_followups"],
+        "a third of the bodies sent to asynchronous mounts go through an application that installs a raw_content_filter or a multipart_filter: the raw filter must see every body byte exactly once (length+hash) with one on_end_of_content, the multipart filter one on_new_file/on_data_ready per part, sizes never shrinking, and on_error at most once and never together with completion; the upload directory is empty after the run. A quarter of the plans inject disk faults into the stdio calls on the spill files at explicit positions (fopen ENOSPC, short fwrite, failing fflush/fseek while data is buffered, optionally sticky = disk stays full): then a multipart request may be refused (413/500/503, handler not entered) but a 200 still has to be byte-exact and no temporary file may survive. non-trivial = run with a body or >= 2 segments; distinct = trace hash",
+   fault_keys=["short_reads", "short_writes", "eagain", "eintr", "spurious_wakeups", "disk_faults_injected"],
+   probe_keys=["requests_with_body", "over_limit_413", "uploads_refused_after_disk_fault", "upload_spill_stdio_calls", "content_filter_requests", "filters_installed", "filter_on_error_calls", "multi_segment_requests", "keepalive_followups"],
    components=E1C,
-   assumptions=["temp files live on a real scratch directory under /dev/shm (file I/O of uploads is not simulated); fwrite failures are not injected",
+   assumptions=["temp files live on a real scratch directory under /dev/shm (file contents are real, only failures of the stdio calls are simulated); read-side stdio errors (fread) are not injected",
                 "media type is compared without parameters (file::mime() documents the media type)"],
    category="exploration",
    text="Deterministic simulation of uploads through the real front-ends and multipart parser: seeded part lists with adversarial boundary look-alikes, every chunking decided by client segmentation, buffer sizes and transport splitting; exact reconstruction, limits and temp-file clean-up are checked.",
-   note="Trusts the harness's multipart encoder and model; upload spill files use the real file system.",
+   note="Trusts the harness's multipart encoder and model; upload spill files use the real file system with injected stdio failures.",
    technique="deterministic simulation: real multipart/upload path on simulated sockets, seeded chunking + adversarial contents, exact-reconstruction oracle",
    design_ref="DESIGN.md s4 C12, s3 E1"),
  "C05": dict(engine="E5 session", src="e5_session", variants=["asan"], level="exploration",
